@@ -241,8 +241,22 @@ class C13(P.Property):
                     viol.append(V("C13.a", "STATE_MISMATCH", f"init echo reports state {s}; the state before the interrupted step was {srv_state}"))
                     return
                 if disk is not None and disk != s and fired() == f0:
-                    viol.append(V("C13.a", "STATE_MISMATCH", f"init echo reports state {s} but service_meta on disk says {disk}"))
-                    return
+                    # a request of an earlier (dead) client may still have been in flight: let things settle and look again
+                    await asyncio.sleep(5)
+                    pr2 = fe.RawActor(run, "probe%d-b" % it, sid)
+                    try:
+                        await pr2.open()
+                        await pr2.wait_change(lambda: pr2.init is not None, 30)
+                    except Exception:
+                        pass
+                    s2 = (pr2.init or {}).get("state")
+                    await pr2.close()
+                    disk = self._server_disk_state(run, sid)
+                    if fired() == f0 and (s2 is None or disk != s2):
+                        viol.append(V("C13.a", "STATE_MISMATCH", f"init echo reports state {s2} but service_meta on disk says {disk} (after settling)"))
+                        return
+                    if s2 is not None:
+                        s = s2
                 srv_state = s
             # --- client view (a fresh client object must always be constructible)
             flags = None
